@@ -27,6 +27,7 @@ Judge(D) == JudgeExpr(D) = TRUE
 
 TCase ==
   /\ Ev.ev = "case"
+  /\ {i \in 1..Len(Ev.docs) : Ev.docs[i].id # <<i>>} = {}     \* a document's id is its index (top_hits identifies hits by it)
   /\ docs' = Ev.docs /\ part' = Ev.part /\ req' = Ev.req /\ query' = Ev.query
   /\ phase' = "run" /\ pool' = {} /\ collected' = {} /\ hd' = EmptyFn
 
